@@ -55,6 +55,10 @@ pub struct Obs {
     // does evaluate() agree with the driven loop (only for short runs)
     pub evaluate_agrees: Option<bool>,
     pub whnf: Option<E>, // normalize_weak_head of the elaborated term (when requested)
+    // an unresolved hole created by parse() is still in the elaborated term
+    pub unresolved_source_hole: bool,
+    // `open` copied an unresolved hole during evaluation
+    pub eval_open_unresolved: u64,
 }
 
 pub struct Opts {
@@ -114,6 +118,58 @@ fn collect_cells(t: &Term, out: &mut HashSet<usize>) {
         }
         _ => {}
     }
+}
+
+// Addresses of the unresolved cells reachable in a term.
+fn collect_unresolved(t: &Term, out: &mut HashSet<usize>) {
+    let mut all = HashSet::new();
+    collect_cells(t, &mut all);
+    // collect_cells gathers every cell; keep the unresolved ones
+    fn walk(t: &Term, out: &mut HashSet<usize>) {
+        match &t.variant {
+            Variant::Unifier(c, _) => {
+                let content = { c.borrow().clone() };
+                match content {
+                    Some(x) => walk(&x, out),
+                    None => {
+                        out.insert(Rc::as_ptr(c) as *const u8 as usize);
+                    }
+                }
+            }
+            Variant::Lambda(_, _, a, b) | Variant::Pi(_, _, a, b) | Variant::Application(a, b) => {
+                walk(a, out);
+                walk(b, out);
+            }
+            Variant::Sum(a, b)
+            | Variant::Difference(a, b)
+            | Variant::Product(a, b)
+            | Variant::Quotient(a, b)
+            | Variant::LessThan(a, b)
+            | Variant::LessThanOrEqualTo(a, b)
+            | Variant::EqualTo(a, b)
+            | Variant::GreaterThan(a, b)
+            | Variant::GreaterThanOrEqualTo(a, b) => {
+                walk(a, out);
+                walk(b, out);
+            }
+            Variant::Let(defs, body) => {
+                for (_, a, d) in defs {
+                    walk(a, out);
+                    walk(d, out);
+                }
+                walk(body, out);
+            }
+            Variant::Negation(a) => walk(a, out),
+            Variant::If(a, b, c) => {
+                walk(a, out);
+                walk(b, out);
+                walk(c, out);
+            }
+            _ => {}
+        }
+    }
+    let _ = all;
+    walk(t, out);
 }
 
 // Walk the evaluation context of a term on which step() returned None and that is not a value.
@@ -203,6 +259,8 @@ pub fn observe(src: &str, context: &[&str], opts: &Opts) -> Obs {
         trace: vec![],
         evaluate_agrees: None,
         whnf: None,
+        unresolved_source_hole: false,
+        eval_open_unresolved: 0,
     };
     let toks = match guard(|| tokenize(None, src)) {
         Err(p) => {
@@ -262,9 +320,15 @@ pub fn observe(src: &str, context: &[&str], opts: &Opts) -> Obs {
         obs.elab_text = a;
         obs.ty_text = b;
     }
+    {
+        let mut after = HashSet::new();
+        collect_unresolved(&elab, &mut after);
+        obs.unresolved_source_hole = after.iter().any(|a| parse_cells.contains(a));
+    }
     if !opts.evaluate {
         return obs;
     }
+    verif_hooks::reset();
     // drive the evaluator ourselves: budget in steps, not seconds
     let mut cur = elab.clone();
     let mut steps = 0u64;
@@ -295,6 +359,7 @@ pub fn observe(src: &str, context: &[&str], opts: &Opts) -> Obs {
         Ok(r) => r,
         Err(p) => Run::Panic(p),
     };
+    obs.eval_open_unresolved = verif_hooks::snapshot().open_unresolved;
     if opts.confirm_evaluate {
         let short = match &obs.run {
             Run::Value { steps, .. } | Run::Stuck { steps, .. } => *steps < 2000,
